@@ -103,6 +103,15 @@ def badDecl (parameters : List String) (d : Decl) : Bool :=
     let unknown2 := d.order2.any (fun e => e.2.any (fun p => !parameters.contains p))
     noMatch || crossCoeff || unknown2
 
+/-- `order2=True`: "all second derivatives" of the *activated* variables: the pairs of declared variables
+    (`get_combinations(list(order1))`, a set of unordered pairs: listed here in both orders) some parameter pair of
+    which the class can differentiate twice (`Pair(p1, p2) in PARAMETERS_ORDER2`, unordered); no coefficients -/
+def expandAll (P2 : List (String × String)) (order1 : List (String × List String)) :
+    List ((String × String) × List String) :=
+  order1.flatMap fun a => order1.filterMap fun b =>
+    if a.2.any (fun p1 => b.2.any fun p2 => P2.contains (p1, p2) || P2.contains (p2, p1))
+    then some ((a.1, b.1), []) else none
+
 /-- nested sequences given to `simulate` -/
 inductive SeqItem where
   | op (probe : Bool)
